@@ -532,9 +532,104 @@ def check_s(ex):
   return out
 
 
+def leaf_phases(o):
+  from openhtf.core import phase_descriptor, phase_group  # pylint: disable=g-import-not-at-top
+  if isinstance(o, phase_descriptor.PhaseDescriptor):
+    return [o]
+  out = []
+  if isinstance(o, phase_group.PhaseGroup):
+    for seq in (o.setup, o.main, o.teardown):
+      if seq:
+        out += leaf_phases(seq)
+    return out
+  for n in getattr(o, 'nodes', ()):
+    out += leaf_phases(n)
+  return out
+
+
+def special_cases():
+  """Corners outside the general history alphabet.  Returns [(kind, what, replay)]."""
+  L, bp, pb, pc, v = lib()
+  h, R = L['htf'], L['R']
+  bad = []
+  # (a) with_args whose arguments mean nothing to the phase (or no arguments at all) still yields a copy -- also for a plain
+  #     phase without a name of its own and without measurements, alone and as a member of a sequence
+  for args in ({}, {'zzz': 1}, {'port': 1}):
+    base = make_base()
+
+    def w_body(test):
+      pass
+
+    base['W'] = h.PhaseDescriptor.wrap_or_copy(w_body)
+    for label, p in sorted(base.items()):
+      before = snap(p)
+      d = p.with_args(**args)
+      if d is p:
+        bad.append(('special:with_args-is-source', '%s.with_args(**%r) returned the phase itself' % (label, args)))
+        continue
+      d.options.timeout_s = 7
+      d.options.run_if = lambda: False
+      if snap(p) != before:
+        bad.append(('special:with_args-aliasing', 'modifying %s.with_args(**%r) changed %s: %s' % (label, args, label, first_diff(before, snap(p)))))
+    seq = pc.PhaseSequence(base['W'], base['Y'], base['X'], name='q')
+    s1, s2 = seq.with_args(**args), seq.with_args(port=2)
+    ids = [[id(x) for x in leaf_phases(o)] for o in (seq, s1, s2)]
+    flat = [i for row in ids for i in row]
+    if len(set(flat)) != len(flat):
+      bad.append(('special:with_args-shared-leaf', 'a sequence and its with_args(**%r) / with_args(port=2) derivations share phase objects' % (args,)))
+  # (b) phases that are recorded as skipped (inside a subtest, after FAIL_SUBTEST): the record must not be the declaration
+  base = make_base()
+
+  def fs_body(test):
+    return h.PhaseResult.FAIL_SUBTEST
+
+  fs = h.PhaseOptions(name='fs')(fs_body)
+  test = h.Test(pc.Subtest('st', fs, runnable(base['X']), base['Y']), notes={'seen': []})
+  cap = htf.Capture()
+  test.add_output_callbacks(cap)
+  declared = {id(m) for p in leaf_phases(test.descriptor.phase_sequence) for m in p.measurements}
+  before = decl_state(test)
+  seen = []
+  summaries = []
+  for run in (1, 2):
+    del cap.records[:]
+    test.execute()
+    rec = cap.records[0]
+    ids = {id(m) for p in rec.phases for m in p.measurements.values()}
+    if ids & declared:
+      bad.append(('special:skipped-record-aliases-declaration', 'run %d: the record of a skipped phase holds the declared Measurement objects' % run))
+    if any(ids & s_ for s_ in seen):
+      bad.append(('special:skipped-records-alias', 'run %d: the records of two runs share Measurement objects' % run))
+    seen.append(ids)
+    summaries.append(tuple((p.name, p.outcome.name, tuple(sorted((k, m.outcome.name) for k, m in p.measurements.items()))) for p in rec.phases))
+    # rendering the finished record must not reach the declaration either
+    rec.as_base_types()
+    if decl_state(test) != before:
+      bad.append(('special:skipped-run-mutated-test', 'run %d changed the declared Test: %s' % (run, first_diff(before, decl_state(test)))))
+      break
+  if len(summaries) == 2 and summaries[0] != summaries[1]:
+    bad.append(('special:skipped-rerun-differs', 'two runs gave %r and %r' % (summaries[0], summaries[1])))
+  # a later change of the declaration must not rewrite a finished record
+  if cap.records:
+    rec = cap.records[0]
+    snap_before = repr([sorted((k, [str(x) for x in m.validators]) for k, m in p.measurements.items()) for p in rec.phases])
+    for p in leaf_phases(test.descriptor.phase_sequence):
+      for m in p.measurements:
+        m.with_validator(is_tiny)
+    snap_after = repr([sorted((k, [str(x) for x in m.validators]) for k, m in p.measurements.items()) for p in rec.phases])
+    if snap_before != snap_after:
+      bad.append(('special:record-follows-declaration', 'adding a validator to the declared measurements changed the record of a finished run'))
+  return [(k, w, {'part': 'special'}) for k, w in bad]
+
+
 def run(tier):
   rep = common.Report(PID, tier, 'model_checking')
   progs.lib()
+  sp = special_cases()
+  rep.merge_violations(sp)
+  rep.add_part('special derivations and skipped phases', states=15, transitions=15, traces_validated_against_impl=15, evaluations=15,
+               distinct_nontrivial=15, exhaustive=True, samples=[{'cases': 'with_args with irrelevant / no arguments on 4 base phases and a '
+                                                                  'sequence; a Test whose phases are recorded as skipped, run twice'}])
   step = common.NCPU * 4
   res = common.pmap(_work, common.rotate([(tier, s, step) for s in range(step)]), chunksize=1)
   n = sum(r[0] for r in res)
@@ -544,6 +639,7 @@ def run(tier):
                distinct_nontrivial=len(set()) + sum(r[2] for r in res), exhaustive=True,
                samples=[r[3] for r in res if r[3]][:2] or [{}])
   alone()
+  explore.set_plan(common.thorough_budget(tier), 1)
   bound = 1 if tier == 'quick' else 2
   r = explore.explore('C11:S', execute_s, check_s, bound, cap=40000 if tier == 'quick' else 400000, free_forced=False)
   rep.merge_violations(r['violations'])
@@ -563,6 +659,12 @@ def run(tier):
 
 def replay(art):
   r = art['replay']
+  if r.get('part') == 'special':
+    progs.lib()
+    hit = [b for b in special_cases() if b[0] == art['signature']]
+    for b in hit:
+      print('VIOLATED', b[0], b[1])
+    return 1 if hit else 0
   if r.get('part') == 'schedules':
     ex = execute_s(r['choices'])
     bad = check_s(ex)
